@@ -99,7 +99,7 @@ def run(ctx):
         for t, a, b in zip(T, rp[s:s + step], rr[s:s + step]):
             cls, l, c = ringcorr.read_class(b)
             rows.append('(%s, %s, (%d%%nat, %d%%nat, %d%%nat))' % (g_str(t), ringcorr.parse_out_lit(a), cls, l, c))
-        shards.append(ringcorr.header(T) + 'Definition cases := [\n%s\n].\n'
+        shards.append(ringcorr.header(T) + 'Definition cases : list (str * pout * (nat * nat * nat)) := [\n%s\n].\n'
                       'Fixpoint mm (i : nat) (l : list (str * pout * (nat * nat * nat))) : list nat :=\n'
                       '  match l with [] => [] | (t, p, (k, ln, cl)) :: r =>\n'
                       '    if pout_same (P t) p && rout_same (R t) k ln cl then mm (S i) r else i :: mm (S i) r end.\n'
